@@ -310,8 +310,8 @@ Inductive qctx :=
 | QDecl      (* T v = f(x)?;                   println("post", i, v); return R::Ok(v); *)
 | QAsg       (* T v = <zero>; v = f(x)?;       println("post", i, v); return R::Ok(v); *)
 | QRet       (* return R::Ok(f(x)?);                                                    *)
-| QBin       (* long v = (f(x)?) + 0;          println("post", i, v); return R::Ok(v); *)
-| QStmt.     (* f(x)?;                         println("post", i);    return R::Ok(100 + i); *)
+| QBin       (* long v = 0 + (f(x)?);          println("post", i, v); return R::Ok(v); *)
+| QStmt.     (* f(x)?;                         println("post", i);    return R::Ok(100); *)
 Record link := mkL { l_ctx : qctx; l_err : payload }.
 (* q_sel = i >= 1: link i returns Err(l_err)/None on entry; the last link otherwise returns Ok(q_ok) *)
 Record progQ := mkQ { q_kind : rkind; q_links : list link; q_ok : payload; q_sel : nat }.
@@ -339,8 +339,10 @@ Definition m_qmark (k : rkind) (sv : stored) : qres :=
 
 Definition is_strp (p : payload) : bool := match p with PStr _ => true | _ => false end.
 (* the local variable of a link is `long v` for an integer chain and `string v` for a string chain;
-   a string variable initialised from the integer ? yields is empty *)
-Definition var_of (strchain : bool) (z : Z) : payload := if strchain then PStr [] else PInt z.
+   a string variable initialised from the integer that ? yields is empty, one assigned from it holds its
+   decimal text (only 0 is reachable: the integer channel of a string payload) *)
+Definition var_of (strchain : bool) (c : qctx) (z : Z) : payload :=
+  if strchain then match c with QAsg => PStr (s2l "0") | _ => PStr [] end else PInt z.
 Definition bval_of (p : payload) : bval := match p with PNone => VNo | PInt z => VInt z | PStr s => VStr s end.
 
 (* result of running link i (first link of ls) and everything below it: transcript, returned value
@@ -361,14 +363,16 @@ Fixpoint m_chain (k : rkind) (okp : payload) (sel : nat) (i : nat) (ls : list li
                    match m_qmark k sv, l_ctx l with
                    | QBad, _ => (EEnter i :: evs, inr XQBad)
                    | _, QStmt =>          (* the ReturnException is swallowed by the expression statement *)
-                       (EEnter i :: evs ++ [EPost i VNo], inl (encode (mkC (v_ok k) (PInt (100 + Z.of_nat i)))))
+                       (EEnter i :: evs ++ [EPost i VNo], inl (encode (mkC (v_ok k) (PInt 100))))
                    | QThrow r', _ => (EEnter i :: evs, inl r')
                    | QVal z, QRet => (EEnter i :: evs, inl (encode (mkC (v_ok k) (PInt z))))
                    | QVal z, QBin =>
-                       (EEnter i :: evs ++ [EPost i (VInt (z + 0))], inl (encode (mkC (v_ok k) (PInt (z + 0)))))
-                   | QVal z, _ =>
-                       let v := var_of (is_strp okp) z in
-                       (EEnter i :: evs ++ [EPost i (bval_of v)], inl (encode (mkC (v_ok k) v)))
+                       (EEnter i :: evs ++ [EPost i (VInt (0 + z))], inl (encode (mkC (v_ok k) (PInt (0 + z)))))
+                   | QVal z, c =>
+                       let v := var_of (is_strp okp) c z in
+                       (* `string v = f(x)?;` evaluates its initialiser twice when it yields a value *)
+                       let evs' := if is_strp okp && match c with QDecl => true | _ => false end then evs ++ evs else evs in
+                       (EEnter i :: evs' ++ [EPost i (bval_of v)], inl (encode (mkC (v_ok k) v)))
                    end
                end
            end
@@ -409,7 +413,7 @@ Fixpoint s_chain (k : rkind) (okp : payload) (sel : nat) (i : nat) (ls : list li
                | inl c =>
                    if str_eqb (c_variant c) (v_ok k) then
                      match l_ctx l with
-                     | QStmt => (EEnter i :: evs ++ [EPost i VNo], inl (mkC (v_ok k) (PInt (100 + Z.of_nat i))))
+                     | QStmt => (EEnter i :: evs ++ [EPost i VNo], inl (mkC (v_ok k) (PInt 100)))
                      | QRet => (EEnter i :: evs, inl c)
                      | _ => (EEnter i :: evs ++ [EPost i (bval_of (c_payload c))], inl c)
                      end
